@@ -43,6 +43,10 @@ def bad_chunk(kind, rows):
         return np.zeros((1,) + tr + (1,), dtype=DT)
     if kind == 'unconv':
         return np.full((1,) + tr, 'x', dtype=object).tolist()
+    if kind == 'complexlist':      # a nested list of complex numbers: np.asarray(list, dtype=float64) refuses it
+        return np.full((1,) + tr, 1 + 2j, dtype=object).tolist()
+    if kind == 'barerow':          # shaped like ONE row, without the first axis
+        return np.zeros(tr, dtype=DT)
     raise KeyError(kind)
 
 
@@ -176,7 +180,7 @@ def build_cases(tier):
             for n in (0, 1, 2, 3):
                 for pos in range(0, n + 1):
                     for kind in ('iter-raises', 'iter-valueerror', 'iter-abort', 'badtrail', 'badrank', 'unconv', 'badtrail0',
-                                 'badzero') + (('zerod',) if rows == 'scalar1d' else ()):
+                                 'badzero', 'complexlist') + (('zerod',) if rows == 'scalar1d' else ('barerow',)):
                         if rows == 'scalar1d' and kind in ('badtrail', 'badtrail0', 'badzero'):
                             continue
                         for entry in ('iterappend-list', 'iterappend-gen'):
@@ -187,8 +191,8 @@ def build_cases(tier):
                     for kind in (('iter-raises', 'badtrail', 'unconv') if rows != 'scalar1d' else ('iter-raises', 'unconv')):
                         cases.append({'rows': rows, 'start': start, 'entry': 'iterappend-list', 'nchunks': n, 'kind': kind,
                                       'position': pos, 'inctx': True})
-            for kind in ('badtrail', 'badrank', 'unconv', 'badtrail0', 'badzero'):
-                if rows == 'scalar1d' and kind in ('badtrail', 'badtrail0', 'badzero'):
+            for kind in ('badtrail', 'badrank', 'unconv', 'badtrail0', 'badzero', 'complexlist', 'barerow'):
+                if rows == 'scalar1d' and kind in ('badtrail', 'badtrail0', 'badzero', 'barerow'):
                     continue
                 cases.append({'rows': rows, 'start': start, 'entry': 'append', 'nchunks': 0, 'kind': kind, 'position': 0})
     # kernel-enforced write failure
